@@ -37,7 +37,11 @@ fn exec(t: &[String]) -> Option<String> {
     // records and queries carried by the flavour's BEDLike implementor (the map keys on chrom/start/end only)
     let bulk_recs: Vec<Rec> = c.bulk.iter().map(|x| x.0.clone()).collect();
     let mut m: GIntervalMap<u64> = crate::with_bedlikes!(fl, &bulk_recs, |xs| xs.into_iter().zip(c.bulk.iter().map(|x| x.1)).collect());
-    for (i, (r, v)) in c.ins.iter().enumerate() { crate::with_bedlike!(rot_flavour(fl, i), r, |x| m.insert(&x, *v)); }
+    for (i, (r, v)) in c.ins.iter().enumerate() {
+        crate::with_bedlike!(rot_flavour(fl, i), r, |x| m.insert(&x, *v));
+        // read-only calls between inserts (results discarded) must not influence any later answer
+        if i % 2 == 0 { if let Some(q) = c.qs.get(i % c.qs.len().max(1)) { let q = q.gr(); let _ = m.is_overlapped(&q); let _ = m.find(&q).count(); let _ = m.len(); } }
+    }
     let mut w = W::new();
     w.n(m.len());
     let it: Vec<_> = m.iter().collect();
